@@ -73,11 +73,14 @@ pub struct ServerConfig {
     pub embedded: PicSource,
     pub cover: PicSource,
     pub binary_limit: usize,
+    /// if non-empty: the k-th picture chunk served is at most `chunk_pattern[k % len]` bytes (a
+    /// server may return less than the limit)
+    pub chunk_pattern: Vec<usize>,
 }
 
 impl Default for ServerConfig {
     fn default() -> Self {
-        ServerConfig { password: None, password_ack_code: 3, embedded: PicSource::Empty, cover: PicSource::Empty, binary_limit: 8192 }
+        ServerConfig { password: None, password_ack_code: 3, embedded: PicSource::Empty, cover: PicSource::Empty, binary_limit: 8192, chunk_pattern: vec![] }
     }
 }
 
@@ -98,6 +101,7 @@ pub struct SimServer {
     /// protocol violations committed by the client
     pub violations: Vec<String>,
     pub dead: bool,
+    pub chunks_served: usize,
 }
 
 fn ack(out: &mut Vec<u8>, code: u64, index: usize, cmd: &str, msg: &str) {
@@ -121,6 +125,7 @@ impl SimServer {
             changed: Vec::new(),
             violations: Vec::new(),
             dead: false,
+            chunks_served: 0,
         }
     }
 
@@ -351,7 +356,11 @@ impl SimServer {
                             ack(out, 2, index, &name, "Bad file offset");
                             return false;
                         }
-                        let k = self.cfg.binary_limit.min(data.len() - offset);
+                        let mut k = self.cfg.binary_limit.min(data.len() - offset);
+                        if !self.cfg.chunk_pattern.is_empty() && k > 0 {
+                            k = k.min(self.cfg.chunk_pattern[self.chunks_served % self.cfg.chunk_pattern.len()].max(1));
+                        }
+                        self.chunks_served += 1;
                         out.extend_from_slice(format!("size: {}\n", data.len()).as_bytes());
                         if name == "readpicture" {
                             if let Some(m) = mime {
